@@ -116,6 +116,68 @@ def corpus():
         member["owners"] = [[1, ctx.h(1), 101, 1]]
         out.append((ctx, dl.scenario(ctx, dl.mk_dep(ctx, 2), [r1, r2], [{"op": "dep"}, {"op": "race", "name": ctx.h(1), "with": ctx.h(2), "at": at}],
                                      store=[member])))
+    return out + handover_corpus() + namespace_corpus()
+
+
+def namespace_corpus():
+    """A like-labelled ObjectDeployment lives in another namespace (ns2): its ObjectSets carry the same selector labels, the same or
+    other template hashes, higher and lower revisions. None of them is a revision of this deployment."""
+    ctx = dl.Ctx(dl.ALPHABET)
+    D = {"op": "dep"}
+    out = []
+    def foreign(name, tmpl, rev, **kw):
+        kw.setdefault("conds", [AV_T(1), SUCC(1)])
+        s = dl.mk_dset(ctx, name, 900 + rev, tmpl, rev, hash=name, ctrl=777, **kw)
+        s["ns"] = 2
+        return s
+    own1 = lambda **kw: dl.mk_dset(ctx, ctx.h(2), 101, 2, 1, hash=ctx.h(2), **kw)
+    # the other namespace's newest ObjectSet has this deployment's template hash (and name): must not count as current
+    out.append((ctx, dict(dl.scenario(ctx, dl.mk_dep(ctx, 1), [], [D, D, {"op": "set", "name": ctx.h(1)}, D]),
+                          foreign=[foreign(ctx.h(1), 1, 3)])))
+    # other hashes, higher and lower revisions than the own revision: must not appear in previous, nor be paused / archived / pruned
+    for frevs in ((5, 6), (1, 7), (0, 4)):
+        f = [foreign(ctx.x(0), 3, frevs[0], conds=[AV_F(1)], ctrlof=[{"gk": 1, "ns": 2, "name": 2}]), foreign(ctx.x(1), 2, frevs[1])]
+        steps = [D, D, {"op": "set", "name": ctx.h(1)}, D, {"op": "set", "name": ctx.h(2)}, D, D]
+        out.append((ctx, dict(dl.scenario(ctx, dl.mk_dep(ctx, 1), [own1(conds=[AV_F(1)], ctrlof=[{"gk": 1, "ns": 1, "name": 2}])], steps), foreign=f)))
+        out.append((ctx, dict(dl.scenario(ctx, dl.mk_dep(ctx, 1, limit=0), [own1(conds=[AV_T(1), SUCC(1)])], steps), foreign=f)))
+    # paused deployment: only its own revisions are paused
+    out.append((ctx, dict(dl.scenario(ctx, dl.mk_dep(ctx, 2, paused=True), [own1(conds=[AV_T(1)])], [D, {"op": "pause", "v": False}, D]),
+                          foreign=[foreign(ctx.x(0), 3, 2)])))
+    return out
+
+
+# templates of the handover witnesses (coq/theories/HandoverProofs.v w1_history, w2_history, w3_history); Widgets (kind 2) are probed
+HALPHABET = [
+    [dl.ph(1, [dl.po(2, 1)]), dl.ph(2, [dl.po(1, 2)])],                 # 1: phases [a]; [b]
+    [dl.ph(1, [dl.po(2, 3)]), dl.ph(2, [dl.po(1, 2)])],                 # 2: phases [c]; [b]
+    [dl.ph(1, [dl.po(1, 2)])],                                          # 3: [b]
+    [dl.ph(1, [dl.po(1, 2), dl.po(2, 3)])],                             # 4: [b, c]
+    [dl.ph(1, [dl.po(2, 4)]), dl.ph(2, [dl.po(1, 2)])],                 # 5: phases [d]; [b]
+    [dl.ph(1, [dl.po(2, 1, body=1)])],                                  # 6-8: the Widget k with three bodies (+ one more Widget)
+    [dl.ph(1, [dl.po(2, 1, body=2)])],
+    [dl.ph(1, [dl.po(2, 1, body=3), dl.po(2, 2)])],
+    [dl.ph(1, [dl.po(2, 3)])],                                          # 9
+]
+
+
+def handover_corpus():
+    """Whole-system histories from an empty cluster that end with the teardown of an archived revision deleting an object the next
+    newer, active revision lists (F-C08c truncated controllerOf, F-C08d cache label + stale Paused=True, F-C08e stale Available)."""
+    ctx = dl.Ctx(HALPHABET)
+    D = {"op": "dep"}
+    S = lambda t: {"op": "set", "name": ctx.h(t)}
+    M = lambda g, n, a: {"op": "member", "key": {"gk": g, "ns": 1, "name": n}, "avail": a}
+    E = lambda t: {"op": "edit", "tmpl": t}
+    out = []
+    w1 = [D, S(1), M(2, 1, 1), S(1), M(2, 1, 2), S(1), E(2), D, S(2), D, S(1), D, S(1), S(2)]
+    w2 = [D, S(3), D, E(4), D, S(4), M(2, 3, 1), S(4), D, S(3), D, S(3), M(2, 3, 2), {"op": "pause", "v": True}, D, S(4), E(5),
+          {"op": "pause", "v": False}, D, S(5), D, S(4), S(4), S(5)]
+    w3 = [D, S(6), M(2, 1, 2), S(6), E(7), D, S(7), D, E(8), D, S(8), D, S(6), S(7), E(9), D, S(9), M(2, 3, 2), D, S(8), D,
+          M(2, 1, 1), S(7), S(8), S(8), S(6), D, S(6), D, S(6), S(6), S(7)]
+    for t0, steps in ((1, w1), (3, w2), (6, w3)):
+        sc = dl.scenario(ctx, dl.mk_dep(ctx, t0), [], steps)
+        sc["slices"] = []
+        out.append((ctx, sc))
     return out
 
 
